@@ -207,7 +207,23 @@ PROPS = {
                      "the factories and the 5 x 2 x filter configuration matrix, machine choosers"],
     ),
     "C11": dict(level="exploration", functions=[], lemmas=[], tierb=True),
-    "C12": dict(level="exploration", functions=[], lemmas=[], tierb=True),
+    "C12": dict(
+        level="exploration",
+        # the part within reach of contracts is proved and reported, but the property is about numpy feature
+        # observers, the graph updater and the environments as much as about these objects: claimed as bounded
+        functions=["Dispatcher.reset", "Dispatcher.__init__", "Schedule.reset", "HistoryObserver.reset",
+                   "RewardObserver.reset", "MakespanReward.reset", "Dispatcher.dispatch"],
+        lemmas=["reset-state-equals-fresh-state", "dispatch-post-deterministic"],
+        tierb=True,
+        trusted=[T_OBSERVERS],
+        assumptions=[A_VALID,
+                     "proved (not enough to claim the property): Dispatcher.reset and Dispatcher.__init__ establish the same "
+                     "abstract state (lemma reset-state-equals-fresh-state) from which dispatch is deterministic; reset clears "
+                     "the cache BEFORE notifying subscribers (cache invariant in the loop invariant of reset); "
+                     "HistoryObserver / RewardObserver / MakespanReward resets re-establish their constructor state",
+                     "bounded only: the seven numpy feature observers and the composite, UnscheduledOperationsObserver, "
+                     "ResidualGraphUpdater, both environments, creation orders"],
+    ),
     "C14": dict(
         level="proof",
         functions=["JobShopInstance.__init__", "JobShopInstance.set_operation_attributes", "JobShopInstance.num_jobs",
